@@ -895,8 +895,45 @@ def check_frame(fmt: str, hdr, data: bytes, prefix: str):
 PREFIX = {"ebyte": [""], "usb": [""], "yd": ["00:00:00.000 R ", "23:59:59.999 T "], "acti": ["A000001.000 ", "A173321.107 "]}
 
 
-def search(ctx):
+def _desc(m, payload):
+    return [m.PGN, payload.hex(), m.source, m.destination, m.priority]
+
+
+def _encode_desc(fmt: str, desc):
+    """re-encode a message description [pgn, payload hex, src, dst, prio] with a fresh real encoder"""
     from nmea2000.encoder import NMEA2000Encoder
+    pgn, ph, src, dst, prio = desc
+    m = _msg_from(pgn, bytes.fromhex(ph), src, dst, prio)
+    if m is None:
+        return []
+    m.source, m.destination, m.priority = src, dst, prio
+    enc = NMEA2000Encoder()
+    try:
+        return list({"ebyte": enc.encode_ebyte, "usb": enc.encode_usb, "yd": enc.encode_yacht_devices}[fmt](m))
+    except Exception:  # noqa: BLE001
+        return []
+
+
+def check_split_msgs(fmt: str, descs):
+    pkts = [p for d in descs for p in _encode_desc(fmt, d)]
+    w = check_split(fmt, pkts) if pkts else None
+    if w:
+        w.pop("packets", None)
+        w["msgs"] = descs
+    return w
+
+
+def check_checksum_msg(desc, index: int):
+    pkts = _encode_desc("usb", desc)
+    if not pkts:
+        return None
+    w = check_checksum(pkts[index % len(pkts)])
+    if w:
+        w["msg"], w["index"] = desc, index
+    return w
+
+
+def search(ctx):
     rng = ctx.rng
     out, seen = [], set()
 
@@ -907,20 +944,20 @@ def search(ctx):
     msgs = real_messages(ctx, ctx.n(60, 400))
     ctx.notes.append(f"witness search: {len(msgs)} real messages of {len({m.PGN for m, _, _ in msgs})} PGNs "
                      f"({sum(1 for _, _, f in msgs if f)} fast-packet)")
-    enc = NMEA2000Encoder()
-    streams = {"ebyte": [], "usb": [], "yd": []}
+    descs = []
+    # the clients' own ISO Request (3 data bytes) is the canonical short frame
+    iso = _msg_from(59904, bytes([0x00, 0xEE, 0x00]), 1, 255, 6)
+    if iso is not None:
+        for fmt in ("ebyte", "usb", "yd", "acti"):
+            add(check_roundtrip(iso, bytes([0x00, 0xEE, 0x00]), False, fmt, PREFIX[fmt][0]))
+        descs.append(_desc(iso, bytes([0x00, 0xEE, 0x00])))
     for m, payload, fast in msgs:
         for rep in range(ctx.n(2, 6)):
             m.source, m.priority = rng.choice([0, 1, 254, 255, rng.getrandbits(8)]), rng.getrandbits(3)
             m.destination = rng.choice([0, 255, rng.getrandbits(8)]) if ((m.PGN >> 8) & 0xFF) < 240 else 255
             for fmt in ("ebyte", "usb", "yd", "acti"):
                 add(check_roundtrip(m, payload, fast, fmt, rng.choice(PREFIX[fmt])))
-            try:
-                streams["ebyte"] += enc.encode_ebyte(m)
-                streams["usb"] += enc.encode_usb(m)
-                streams["yd"] += enc.encode_yacht_devices(m)
-            except Exception:  # noqa: BLE001
-                pass
+            descs.append(_desc(m, payload))
     # arbitrary frames, at the level of the tuple handed to `_decode`
     for _ in range(ctx.n(300, 3000)):
         pgn, src, dst, prio = gen_hdr(rng)
@@ -929,23 +966,15 @@ def search(ctx):
         for fmt in ("ebyte", "usb", "yd", "acti"):
             data = gen_data(rng, rng.randint(1 if fmt in ("yd", "acti") else 0, 8))
             add(check_frame(fmt, (pgn, src, dst, prio), data, rng.choice(PREFIX[fmt])))
-    # the clients' own ISO Request (3 data bytes) is the canonical short frame
-    iso = _msg_from(59904, bytes([0x00, 0xEE, 0x00]), 1, 255, 6)
-    if iso is not None:
-        for fmt in ("ebyte", "usb", "yd", "acti"):
-            add(check_roundtrip(iso, bytes([0x00, 0xEE, 0x00]), False, fmt, PREFIX[fmt][0]))
-        streams["ebyte"] = enc.encode_ebyte(iso) + streams["ebyte"]
-    # checksum table
-    for p in rng.sample(streams["usb"], min(len(streams["usb"]), ctx.n(3, 25))):
-        add(check_checksum(p))
-    # split
-    for fmt, pk in streams.items():
+    # checksum table: 18 positions x 255 corruptions on real packets
+    for d in rng.sample(descs, min(len(descs), ctx.n(3, 25))):
+        add(check_checksum_msg(d, rng.randrange(8)))
+    # split: concatenations of the packets of consecutive messages through the matching client's receive path
+    for fmt in ("ebyte", "usb", "yd"):
+        add(check_split_msgs(fmt, descs[:12]))
         for _ in range(ctx.n(4, 30)):
-            if not pk:
-                break
-            i = rng.randrange(len(pk))
-            add(check_split(fmt, pk[i:i + rng.randint(1, 12)]))
-        add(check_split(fmt, pk[:40]))
+            i = rng.randrange(len(descs))
+            add(check_split_msgs(fmt, descs[i:i + rng.randint(1, 6)]))
     return out
 
 
@@ -962,9 +991,10 @@ def replay(ctx, data):
     elif w.get("kind") == "frame":
         r = check_frame(w["fmt"], tuple(w["hdr"]), bytes.fromhex(w["data"]), w.get("prefix", ""))
     elif w.get("kind") == "checksum":
-        r = check_checksum(bytes.fromhex(w["packet"]))
+        r = check_checksum_msg(w["msg"], w["index"]) if "msg" in w else check_checksum(bytes.fromhex(w["packet"]))
     elif w.get("kind") == "split":
-        r = check_split(w["fmt"], [bytes.fromhex(p) for p in w["packets"]])
+        r = (check_split_msgs(w["fmt"], w["msgs"]) if "msgs" in w
+             else check_split(w["fmt"], [bytes.fromhex(p) for p in w["packets"]]))
     print("expected: packets of fixed size that round-trip and are split back by the receive path")
     print("observed:", r["what"] if r else "property holds on this input")
     return r is not None
